@@ -17,6 +17,7 @@ pub mod c13;
 pub mod c14;
 pub mod c15;
 pub mod c16;
+pub mod c17;
 pub mod c18;
 pub mod c19;
 pub mod c20;
@@ -39,6 +40,7 @@ pub fn get(id: &str) -> Option<PropertyDef> {
         "C14" => Some(c14::def()),
         "C15" => Some(c15::def()),
         "C16" => Some(c16::def()),
+        "C17" => Some(c17::def()),
         "C18" => Some(c18::def()),
         "C19" => Some(c19::def()),
         "C20" => Some(c20::def()),
